@@ -19,8 +19,11 @@ class MachineryError(Exception):
     """The check could not do its job (build failed, TLC parse error...). Exit 2, never a VIOLATION."""
 
 
+_T0 = time.time()
+
+
 def log(*a):
-    print(*a, file=sys.stderr, flush=True)
+    print("%6.1fs" % (time.time() - _T0), *a, file=sys.stderr, flush=True)
 
 
 # --------------------------------------------------------------------------------------------
@@ -188,8 +191,13 @@ def run_tlc(module, cfg, workers=None, simulate=None, depth=None, seed=None, env
     r = TlcResult()
     r.wall = time.time() - t0
     r.out = p.stdout + p.stderr
+    seen_lines = set()
     for line in p.stdout.splitlines():
         if line.startswith('<<"' + tag + '"'):
+            if simulate:                                # a finished random walk keeps stuttering and prints itself again at every step
+                if line in seen_lines:
+                    continue
+                seen_lines.add(line)
             m = _TLA_STR.findall(line)
             if len(m) >= 2:
                 r.printed.append(_untla(m[1]))
